@@ -1,5 +1,6 @@
 import Driver.Loop
 import Midgard.Model.CacheMachine
+import Midgard.Model.ObjCache
 import Midgard.Generated.CacheMech
 
 /-! Driver for C08: one line = one whole history of the cache machine.
@@ -49,7 +50,47 @@ def showOut : Out → String
   | .mutated => "M"
   | .bad => "B"
 
+/-! second machine: per-object caches.  `c08 obj <src|tv bits> <op> …` -/
+namespace O
+open Midgard.ObjCache
+
+def parseNats? (s : String) : Option (List Nat) :=
+  if s = "[]" then some [] else (s.splitOn ",").mapM (·.toNat?)
+
+def parseOp? (tok : String) : Option Midgard.ObjCache.Op :=
+  match tok.splitOn ":" with
+  | ["create", vals] => do pure (.create (← parseNats? vals))
+  | ["view", p, rows] => do pure (.view (← p.toNat?) (← parseNats? rows))
+  | ["take", p, rows] => do pure (.take (← p.toNat?) (← parseNats? rows))
+  | ["setother", p, "-"] => do pure (.setOther (← p.toNat?) none)
+  | ["setother", p, q] => do pure (.setOther (← p.toNat?) (some (← q.toNat?)))
+  | ["setitem", p, k, v] => do pure (.setItem (← p.toNat?) (← k.toNat?) (← v.toNat?))
+  | ["readconv", p] => do pure (.readConv (← p.toNat?))
+  | ["readder", p] => do pure (.readDer (← p.toNat?))
+  | _ => none
+
+def showNats (l : List Nat) : String := Midgard.Proto.showList toString l
+
+def showOut : Midgard.ObjCache.Out → String
+  | .done => "D"
+  | .conv s => "C:" ++ showNats s
+  | .der a b => "R:" ++ showNats a ++ ":" ++ showNats b
+  | .bad => "B"
+
+def parseFlags? (s : String) : Option Midgard.ObjCache.Flags :=
+  if s = "src" then
+    some ⟨Midgard.Generated.CacheMech.objTransitive, Midgard.Generated.CacheMech.objViewsLinked⟩
+  else match s.toList.map (· == '1') with
+    | [a, b] => some ⟨a, b⟩
+    | _ => none
+
+end O
+
 def handle : List String → Option String
+  | "c08" :: "obj" :: fl :: ops => do
+    let fl ← O.parseFlags? fl
+    let ops ← ops.mapM O.parseOp?
+    pure ("|".intercalate ((Midgard.ObjCache.run fl {} ops).2.map O.showOut))
   | "c08" :: "run" :: fl :: ops => do
     let fl ← parseFlags? fl
     let ops ← ops.mapM parseOp?
